@@ -604,6 +604,9 @@ def verifySpec (i : Input) : Bool :=
      (statedMediaType i == "" || statedMediaType i == i.contentMediaType) &&
      kvSubset (wantedMetadata i) (expectedPayload i).annotations)
 
+/-- ... under the applicable policy statement: one that demands a timestamp rejects the un-timestamped signature -/
+def verifySpecP (i : Input) : Bool := !timestampDemanded i && verifySpec i
+
 theorem kvSubset_nil (a : List KV) : kvSubset [] a = true := rfl
 
 /-- a verification call that asks for what was signed, before the expiry, succeeds -/
@@ -649,14 +652,18 @@ theorem verifySpec_of_consistent (i : Input) (hl : legal i = true) (hc : consist
       | all => simp [wantedMetadata, hv, kvSubset_merge _ _ hlm]
       | wrong => exact absurd hv hmd
 
+theorem verifySpecP_of_consistent (i : Input) (hl : legal i = true) (hc : consistentVerify i = true)
+    (he : blocked i = false) (hts : timestampDemanded i = false) : verifySpecP i = true := by
+  simp [verifySpecP, hts, verifySpec_of_consistent i hl hc he]
+
 /-- what is observed of a round trip, in closed form -/
 def obsSpec (i : Input) : Obs :=
   if legal i then
-    { signed := true, verified := verifySpec i, payload := some (expectedPayload i),
+    { signed := true, verified := verifySpecP i, payload := some (expectedPayload i),
       expirySec := if i.durationNs ≠ 0 then some (i.durationNs / 1000000000) else none,
-      returned := if verifySpec i then
+      returned := if verifySpecP i then
           some (match i.kind with | .blob => expectedPayload i | .oci => fullObs i.desc) else none,
-      userMetadata := if verifySpec i then some (expectedPayload i).annotations else none }
+      userMetadata := if verifySpecP i then some (expectedPayload i).annotations else none }
   else noSignature
 
 theorem userMetadataOf_eq (p : DescObs) : userMetadataOf p = p.annotations := by
@@ -689,7 +696,7 @@ theorem runWith_eq (C : Crypto) (key : C.Key) (trust : C.Pub → Bool) (ht : tru
         have hr := requestedPayload_oci i hk
         simp [envelopeOf, expectedAttrs, hf.1, hf.2.1, hf.2.2.1, hr]
       simp only [hv, hexp, userMetadataOf_eq]
-      simp [envelopeOf, expectedAttrs]
+      simp [envelopeOf, expectedAttrs, verifySpecP]
     | blob =>
       have hv : verifyBlob trust ((envelopeOf C key i (expectedAttrs i nowNs)).attrs.signingTime + (i.lagSec : Int))
           i.blob (copyLoop i.verifyReader.steps) (statedMediaType i) (wantedMetadata i)
@@ -724,11 +731,16 @@ theorem runWith_eq (C : Crypto) (key : C.Key) (trust : C.Pub → Bool) (ht : tru
                 simp [h1.1, h1.2]
               simp [this, h1]
       rw [hv]
-      by_cases hvs : verifySpec i = true
-      · simp only [hvs, if_true, hexp, userMetadataOf_eq]
+      by_cases hts : timestampDemanded i = true
+      · simp only [hts, if_true, hexp, verifySpecP, Bool.not_true, Bool.false_and, Bool.false_eq_true, if_false]
         simp [envelopeOf, expectedAttrs]
-      · simp only [hvs, Bool.false_eq_true, if_false, hexp]
-        simp [envelopeOf, expectedAttrs]
+      · have hts' : timestampDemanded i = false := by simpa using hts
+        by_cases hvs : verifySpec i = true
+        · simp only [hts', hvs, if_true, hexp, userMetadataOf_eq, verifySpecP, Bool.false_eq_true, if_false,
+            Bool.not_false, Bool.and_self]
+          simp [envelopeOf, expectedAttrs]
+        · simp only [hts', hvs, Bool.false_eq_true, if_false, hexp, verifySpecP, Bool.and_false]
+          simp [envelopeOf, expectedAttrs]
   · simp [hl]
 
 
@@ -749,23 +761,22 @@ theorem model_holds (i : Input) (hwf : wf i = true) : Holds i (run i) = true := 
   simp only [Clauses.holds_cons, Clauses.holds_nil, Bool.and_true, hwf, Bool.true_and]
   by_cases hl : legal i = true
   · simp only [hl, if_true]
-    by_cases hv : verifySpec i = true
-    · have hf := expectedPayload_fields i
-      have hx : unprocessedCritical i = false := by
+    have hf := expectedPayload_fields i
+    by_cases hv : verifySpecP i = true
+    · have hx : unprocessedCritical i = false := by
         cases h3 : unprocessedCritical i
         · rfl
-        · simp [verifySpec, blocked, h3] at hv
+        · simp [verifySpecP, verifySpec, blocked, h3] at hv
       cases hk : i.kind with
       | oci => simp [hv, hk, hx]
       | blob => simp [hv, hk, hx, hf.2.1, requestedPayload_blob i hk]
-    · have hne : ¬ (consistentVerify i = true ∧ blocked i = false) := by
+    · have hne : ¬ (consistentVerify i = true ∧ blocked i = false ∧ timestampDemanded i = false) := by
         intro h
-        exact hv (verifySpec_of_consistent i hl h.1 h.2)
-      have hv' : verifySpec i = false := by simpa using hv
-      have hc : (consistentVerify i && !expiredAtVerify i && !unprocessedCritical i) = false := by
+        exact hv (verifySpecP_of_consistent i hl h.1 h.2.1 h.2.2)
+      have hv' : verifySpecP i = false := by simpa using hv
+      have hc : (consistentVerify i && !expiredAtVerify i && !unprocessedCritical i && !timestampDemanded i) = false := by
         cases h1 : consistentVerify i <;> cases h2 : expiredAtVerify i <;> cases h3 : unprocessedCritical i <;>
-          simp_all [blocked]
-      have hf := expectedPayload_fields i
+          cases h4 : timestampDemanded i <;> simp_all [blocked]
       cases hk : i.kind with
       | oci => simp [hv', hk, hc]
       | blob => simp [hv', hk, hc, hf.2.1, requestedPayload_blob i hk]
@@ -778,29 +789,31 @@ the signature the signing API produces is accepted by the verification API under
 that trusts the signer, when the caller asks for what was signed before the expiry. -/
 theorem sign_then_verify_ok (C : Crypto) (key : C.Key) (trust : C.Pub → Bool)
     (ht : trust (C.pub key) = true) (nowNs : Int) (i : Input)
-    (hwf : wf i = true) (hl : legal i = true) (hc : consistentVerify i = true) (he : blocked i = false) :
+    (hwf : wf i = true) (hl : legal i = true) (hc : consistentVerify i = true) (he : blocked i = false)
+    (hts : timestampDemanded i = false) :
     (runWith C key trust nowNs i).signed = true ∧ (runWith C key trust nowNs i).verified = true := by
   rw [runWith_eq C key trust ht nowNs i hwf]
-  simp [obsSpec, hl, verifySpec_of_consistent i hl hc he]
+  simp [obsSpec, hl, verifySpecP_of_consistent i hl hc he hts]
 
 /-- the same at the level of the two APIs: the envelope exists and the verifier accepts it -/
 theorem sign_then_verify_ok_api (C : Crypto) (key : C.Key) (trust : C.Pub → Bool)
     (ht : trust (C.pub key) = true) (nowNs : Int) (i : Input)
-    (hwf : wf i = true) (hl : legal i = true) (hc : consistentVerify i = true) (he : blocked i = false) :
+    (hwf : wf i = true) (hl : legal i = true) (hc : consistentVerify i = true) (he : blocked i = false)
+    (hts : timestampDemanded i = false) :
     ∃ e, signModel C key i nowNs = some e ∧
       (i.kind = .oci → verifyOCI trust (e.attrs.signingTime + (i.lagSec : Int)) i.desc (wantedMetadata i) e = true) ∧
       (i.kind = .blob → verifyBlob trust (e.attrs.signingTime + (i.lagSec : Int)) i.blob
           (copyLoop i.verifyReader.steps) (statedMediaType i) (wantedMetadata i) e = some (expectedPayload i)) := by
   have h := runWith_eq C key trust ht nowNs i hwf
-  have hv := verifySpec_of_consistent i hl hc he
+  have hv := verifySpecP_of_consistent i hl hc he hts
   have hs := signModel_eq C key i nowNs hwf
   refine ⟨envelopeOf C key i (expectedAttrs i nowNs), by simp [hs, hl], ?_, ?_⟩
   · intro hk
-    simp only [runWith, hs, hl, if_true, hk, obsSpec, hv] at h
+    simp only [runWith, hs, hl, if_true, hk, obsSpec, hv, hts, Bool.not_false, Bool.true_and] at h
     have := congrArg Obs.verified h
     simpa using this
   · intro hk
-    simp only [runWith, hs, hl, if_true, hk, obsSpec, hv] at h
+    simp only [runWith, hs, hl, if_true, hk, obsSpec, hv, hts, Bool.false_eq_true, if_false] at h
     split at h
     · rename_i r hr
       rw [hr]
@@ -1018,8 +1031,32 @@ theorem critical_attribute_blocks_verification (i : Input) (hwf : wf i = true) (
   rw [run_eq i hwf]
   unfold obsSpec
   split
-  · simp [verifySpec, blocked, h]
+  · simp [verifySpecP, verifySpec, blocked, h]
   · rfl
+
+/-- **Which trusting statement applies does not matter** - wildcard, scoped, global or named, with or without a tsa
+store - as long as it does not demand a timestamp: with `verifyTimestamp: afterCertExpiry` (or without a tsa store)
+the fresh, un-timestamped signature of a signer whose certificates are valid verifies. -/
+theorem timestamp_not_demanded (p : Policy) (h : p.tsaStore = false ∨ p.verifyTimestamp = .afterCertExpiry)
+    (i : Input) : timestampDemanded { i with policy := p } = false := by
+  unfold timestampDemanded
+  rcases h with h | h <;> simp [h]
+
+theorem policy_shape_irrelevant (i : Input) (p : Policy) (hwf : wf i = true)
+    (h1 : timestampDemanded i = false) (h2 : timestampDemanded { i with policy := p } = false) :
+    run { i with policy := p } = run i := by
+  have hwf' : wf { i with policy := p } = true := hwf
+  rw [run_eq _ hwf', run_eq _ hwf]
+  unfold obsSpec verifySpecP
+  rw [h1, h2]
+  rfl
+
+/-- **Other calls in flight do not matter**: a round trip observes the same alone, interleaved with another blob
+call in either role, or among many goroutines. -/
+theorem in_flight_irrelevant (i : Input) (f : InFlight) : run { i with inFlight := f } = run i := rfl
+
+theorem in_flight_irrelevant_holds (i : Input) (f : InFlight) (o : Obs) :
+    Holds { i with inFlight := f } o = Holds i o := rfl
 
 /-- the bytes the envelope happens to end in, and a line break after a JWS envelope, do not matter -/
 theorem envelope_bytes_irrelevant (i : Input) (b : Option Nat) (nl : Bool) :
@@ -1175,7 +1212,8 @@ def exampleBlob : Input :=
     history := { position := 7, prevKeySpec := some .rsa2048, prevKind := some .oci, prevFormat := some .jws,
                  keyVia := .rotated },
     tamper := .reserialised, envelopeLastByte := some 32, trailingNewline := false,
-    extAttrs := .nonCritical, timeZone := "Australia/Lord_Howe" }
+    extAttrs := .nonCritical, timeZone := "Australia/Lord_Howe",
+    policy := { tsaStore := true, verifyTimestamp := .afterCertExpiry, named := true }, inFlight := .pinnedFirst }
 
 /-- a concrete successful round trip (legal, verified, SHA-384 digest for an EC-384 key, 2 s expiry) -/
 example : obsSpec exampleBlob =
@@ -1217,6 +1255,18 @@ example : Holds { exampleBlob with signer := .pluginEnvelope, extAttrs := .nonCr
 /-- `Holds` is false of an expiry that is off by an hour (a validity that crossed a daylight-saving change on the calendar) -/
 example : Holds { exampleBlob with durationNs := 8640000000000000 }
     { (obsSpec { exampleBlob with durationNs := 8640000000000000 }) with expirySec := some (8640000 + 3600) } = false := by decide
+
+/-- tsa store + afterCertExpiry: verified; tsa store + always / unset: the un-timestamped signature is rejected;
+`Holds` is false if afterCertExpiry behaved like always -/
+example : (obsSpec exampleBlob).verified = true := by decide
+example : (obsSpec { exampleBlob with policy := ⟨true, .always, false⟩ }).verified = false ∧
+    (obsSpec { exampleBlob with policy := ⟨true, .unset, true⟩ }).verified = false ∧
+    (obsSpec { exampleBlob with policy := ⟨false, .always, true⟩ }).verified = true := by decide
+example : Holds exampleBlob { (obsSpec exampleBlob) with verified := false, returned := none, userMetadata := none } = false := by
+  decide
+/-- keys with white space at either end are keys like any other: signed, read back with the caller's spelling -/
+example : (obsSpec { exampleBlob with metadata := [⟨" commit", "1"⟩, ⟨"build ", "7"⟩] }).userMetadata =
+    some [⟨" commit", "1"⟩, ⟨"build ", "7"⟩] := by decide
 
 /-- `Holds` is false when a plugin's dropped annotation goes unnoticed: signed, verified, metadata lost -/
 example : Holds { exampleBlob with signer := .pluginEnvelope, tamper := .dropAnnotation, verifyMetadata := .nothing }
